@@ -70,7 +70,7 @@ def specC02 (st : State) : List Fml :=
      | .viaSelect _ s _ true => [countF s.kind s.flags s.n]
      | _ => []))) ++
   st.tasks.flatMap (fun t =>
-    if t.work > 0 && !(workTerms st t).isEmpty then [Fml.ge (sumOrZero (workTerms st t)) (numT t.work)] else [])
+    if t.work > 0 && !(workTerms st t).isEmpty then [Fml.imp t.schedF (Fml.ge (sumOrZero (workTerms st t)) (numT t.work))] else [])
 
 /-! ### C03 -/
 
